@@ -1121,8 +1121,8 @@ func TestC32(t *testing.T) {
 		"schedules are sampled (real goroutines), except for the scheduling points of the harness-supplied shards",
 		"the shard factory handed to NewShardedMap / NewDeepShardedMap is caller code and may be descheduled for any time: the harness factory yields there")
 
-	r.Checks(300, 20000)
-	r.ShrinkTime(20 * time.Second)
+	r.Checks(450, 30000)
+	r.ShrinkTime(12 * time.Second)
 
 	var unknown atomic.Int64
 
